@@ -8,12 +8,10 @@ Property theorems only.  `Model/C14.lean` mirrors `position_to_offset`, `offset_
 (`Impl`); `Spec` is the editor: the document as UTF-16 code units, LSP lines (`\n`, `\r\n`, `\r`),
 a change replaces the unit range `[start, end)`.
 
-Guards of the agreement theorems (`Spec.lfOrCrlf`, `Spec.lfChanges`, `Spec.lfEvent`,
-`Spec.lfHistory`), both necessary:
-* the buffers addressed by ranged changes use `\n` / `\r\n` line ends —
-  `c14_counterexample_lone_cr` (known finding C14-lone-cr);
-* no DELETED file event for the document while the editor has it open —
-  `c14_counterexample_deleted_while_open` (known finding C14-deleted-event-drops-open-document).
+Guard of the agreement theorems (`Spec.lfOrCrlf`, `Spec.lfChanges`, `Spec.lfEvent`,
+`Spec.lfHistory`): the buffers addressed by ranged changes use `\n` / `\r\n` line ends.  It is
+necessary: `c14_counterexample_lone_cr` (known finding C14-lone-cr).  File events need no guard
+(`c14_deleted_keeps_open`; the defect C14-deleted-event-drops-open-document is repaired in /repo).
 -/
 namespace TrustVerif.C14
 
@@ -53,8 +51,8 @@ CREATED / CHANGED / DELETED for its URI and workspace indexing passes, each with
 disk text.  For every such sequence an editor can produce (`Spec.run … = some ed`), starting from
 an untracked document, the server's `Document` agrees with the editor's copy after the whole
 sequence (and after every event, `c14_history_every_step`): same text, same version, open, and
-the analysis database reads that text — an open document ignores the disk (the `is_open` guard of
-`index_document_impl`), a closed one takes the disk text; not open on the server when the editor
+the analysis database reads that text — an open document ignores the disk (the `is_open` guards of
+`index_document_impl` and of the DELETED branch), a closed one takes the disk text or is forgotten; not open on the server when the editor
 has closed it.  Induction over the history, no bound. -/
 theorem c14_history (evs : List Impl.Event) (ed : Option Spec.Doc)
     (hlf : Spec.lfHistory none (evs.map encodeEvent) = true)
@@ -157,16 +155,13 @@ theorem c14_counterexample_lone_cr :
       some (encode16 ['a', '\r', 'X', 'b']) ∧
     Spec.lfOrCrlf (encode16 ['a', '\r', 'b']) = false := by decide
 
-/-- **The second guard is necessary (known finding C14-deleted-event-drops-open-document).**
-The editor opens a document and edits it; its file is deleted on disk; the editor still holds the
-buffer and keeps editing.  The server drops the open document on the DELETED event
-(`remove_document` has no `is_open` guard) and ignores every later change. -/
-theorem c14_counterexample_deleted_while_open :
-    let evs : List Impl.Event :=
-      [.didOpen 1 ['x'], .watchedDeleted, .didChange 2 [.range 0 1 0 1 ['y']]]
-    Impl.run none evs = none ∧
-    Spec.run none (evs.map encodeEvent) = some (some { units := encode16 ['x', 'y'], version := 2 }) ∧
-    Spec.lfHistory none (evs.map encodeEvent) = false := by decide
+/-- **A DELETED file event does not touch an open document** (the repaired defect
+C14-deleted-event-drops-open-document, /repo 9240ec7): whatever the document, as long as the
+editor has it open the server keeps it unchanged when its file is deleted on disk; a closed one
+is forgotten.  This is the case of `c14_history` that used to need a guard. -/
+theorem c14_deleted_keeps_open (d : Impl.Doc) :
+    Impl.step (some d) .watchedDeleted = (if d.isOpen then some d else none) := by
+  simp [Impl.step]
 
 /-! ## Non-vacuity: the hypotheses are satisfiable on the interesting inputs -/
 
@@ -203,6 +198,17 @@ example :
     Impl.run none evs =
       some { text := ['a', '😀', 'é'], version := 2, isOpen := false, analysed := ['a', '😀', 'é'] } := by
   decide
+
+/-- The witness of the repaired defect: open, the file is deleted on disk, the editor keeps
+editing — the history is an editor history without any guard on the DELETED event, and the server
+follows. -/
+example :
+    let evs : List Impl.Event :=
+      [.didOpen 1 ['x'], .watchedDeleted, .didChange 2 [.range 0 1 0 1 ['y']]]
+    Spec.lfHistory none (evs.map encodeEvent) = true ∧
+    Spec.run none (evs.map encodeEvent) = some (some { units := encode16 ['x', 'y'], version := 2 }) ∧
+    Impl.run none evs =
+      some { text := ['x', 'y'], version := 2, isOpen := true, analysed := ['x', 'y'] } := by decide
 
 /-- `c14_history` over the extended alphabet: the file is indexed, opened, edited (unsaved),
 rewritten on disk behind the editor's back (CHANGED), saved, closed, rewritten again (the closed
